@@ -6,7 +6,7 @@ Require Import V.model.Paillier V.model.ElGamal.
 Extraction Blacklist List String Nat Z.
 Extraction "model.ml"
   modexp modinv bitlen plaintext_from_nat plaintext_symmetric normalise pt_add pt_neg pt_scale
-  representative noise cmul enc textbook cinv cscale shift rerandomise
+  representative noise cmul enc pk_representative_ring pk_enc_ring shift_ring pt_add_ring pt_scale_ring sk_enc_ring textbook cinv cscale shift rerandomise
   nonce_mul nonce_inv nonce_scale unit_from
   new_secret_key new_public_key precompute decrypt decrypt_checked open_ct sk_N
   sk_noise sk_cmul sk_enc sk_cscale sk_cinv sk_shift sk_rerandomise
